@@ -249,6 +249,20 @@ impl HsWorld {
                 }
                 }
                 // ---- C10 ----
+                // lookups by id must refer to the session that was authenticated for that id: the response
+                // was sealed with the keys of token k, so id and user data must be those of token k
+                if let (10, Act::Response(_, k, _)) = (self.fx.oracle, a) {
+                    let tk = &self.fx.toks[*k];
+                    if tk.spec.client_id != *client_id || nc::user_data(tk.spec.tag) != **user_data {
+                        return Err(Violation::new(
+                            "C10/session-data-not-of-the-authenticated-session",
+                            format!(
+                                "the response was sealed with the keys of token {} (id {}, user data tag {}), the server reports client id {} with user data tag {}",
+                                tk.name, tk.spec.client_id, tk.spec.tag, client_id, user_data[0]
+                            ),
+                        ));
+                    }
+                }
                 if self.fx.oracle == 10 && self.connected.contains_key(client_id) {
                     return Err(Violation::new("C10/connect-reported-for-connected-id", format!("ClientConnected for id {} which is already connected", client_id)));
                 }
